@@ -183,6 +183,11 @@ func checkC12(c *Ctx) {
 		bwsTickUnderContention(c)
 	}
 
+	// ---- 5b. the wrapped sink fails: prefix of the accepted stream, clean Sync/Stop acknowledge everything
+	if stage("fault") {
+		runBwsFault(c, "C12")
+	}
+
 	// ---- 6. crash points: SIGKILL a child writing through BWS to a file
 	if stage("crash") {
 		bwsCrash(c)
